@@ -253,7 +253,7 @@ def run(ctx):
             have = {R.tname(t) for t in types}
             rest = [t for t in R.grammar(2) if R.tname(t) not in have]
             n_rest = len(rest)
-            types = types + random.Random(ctx.seed).sample(rest, min(30000, len(rest)))
+            types = types + random.Random(ctx.seed).sample(rest, min(20000, len(rest)))
         pool = R.general_pool(env)
         n_pool_deep = ctx.pick(4, 6)
         n_near_deep = ctx.pick(6, 12)
